@@ -450,6 +450,12 @@ def run_serial_case(case):
 
 
 SYNTAX = [
+    # identifiers and values that BEGIN with a literal token of the TatSu grammar (None, False, True, null, name, int ...): a parser
+    # whose name guard is off takes the token and stops in the middle of the word
+    "start[nullable] = 'a' ;\n", "start(kind=Trueish) = 'a' ;\n", "start::Nonesuch = 'a' ;\n", "start[Falsey, Nonez] = 'a' ;\n",
+    "@@whitespace :: Nonesense\nstart = 'a' ;\n", "@@nameguard :: Truely\nstart = 'a' ;\n", "@@left_recursion :: Falsehood\nstart = 'a' ;\n",
+    "start = @namely ;\n", "start = @intx 'a' ;\n", "start = 'a' includes ;\nincludes = 'b' ;\n", "@@keyword :: keywords Nones\nstart = 'a' ;\n",
+    "starter = 'a' ;\n@nameless\nx = 'b' ;\n", "@override\nstart = 'a' ;\n", "@overrides\nstart = 'a' ;\n", "start = x:'a' ;\n@nomemos\ny = 'b' ;\n",
     "start: 'a' ;\n", "start ::= 'a' 'b' ;\n", "start := 'a' | 'b'\n\nother: 'c'\n", "start = | 'a' | 'b' ;\n",
     "@@grammar :: Foo\n@@whitespace :: /\\s+/\n@@nameguard :: False\n@@ignorecase\n@@keyword :: if then\n@@keyword :: (a b)\n@@keyword :: 'x' \"y\"\nstart: 'a' | 'b' 'c' ;\n",
     "@@memoization :: False\n@@parseinfo\n@@left_recursion :: True\n@@namechars :: '$-'\n@@whitespace :: ' \\t'\n@@whitespace :: False\nstart: 'a' ;\n",
